@@ -40,6 +40,7 @@ func runInterleaved(tag string, frames []Frame, steps int, next func(step int, p
 		if o == nil {
 			break
 		}
+		r.Prep(o)
 		out := r.Exec(*o)
 		pool, nrows := r.snapshot()
 		h.Steps = append(h.Steps, StepObs{Op: *o, Out: out, Pool: pool, Nrows: nrows})
